@@ -546,12 +546,13 @@ pub fn check_mut(rep: &mut Report, script: &[String], rng: &mut Rng) {
             let r1 = if sel.rtype == "ANNOTATION" { run_mut(&mut via_query.store, &text) } else { run_mut_built(&mut via_query.store, &sel) };
             let r2: Result<(), String> = match guarded(std::panic::AssertUnwindSafe(|| -> Result<(), StamError> {
                 for row in &rows { match row.first() {
-                    Some(Item::R(h)) => direct.store.remove(TextResourceHandle::new(*h))?,
+                    // (the same item may be in several rows: it is removed once)
+                    Some(Item::R(h)) => if direct.store.resource(TextResourceHandle::new(*h)).is_some() { direct.store.remove(TextResourceHandle::new(*h))? },
                     // (an earlier removal may have taken this one along: annotations on a removed annotation go with it)
                     Some(Item::A(h)) => if direct.store.annotation(AnnotationHandle::new(*h)).is_some() { direct.store.remove(AnnotationHandle::new(*h))? },
-                    Some(Item::S(h)) => direct.store.remove(AnnotationDataSetHandle::new(*h))?,
-                    Some(Item::K(s, h)) => direct.store.remove_key(AnnotationDataSetHandle::new(*s), DataKeyHandle::new(*h), true)?,
-                    Some(Item::D(s, h)) => direct.store.remove_data(AnnotationDataSetHandle::new(*s), AnnotationDataHandle::new(*h), true)?,
+                    Some(Item::S(h)) => if direct.store.dataset(AnnotationDataSetHandle::new(*h)).is_some() { direct.store.remove(AnnotationDataSetHandle::new(*h))? },
+                    Some(Item::K(s, h)) => if direct.store.dataset(AnnotationDataSetHandle::new(*s)).and_then(|ds| ds.key(DataKeyHandle::new(*h))).is_some() { direct.store.remove_key(AnnotationDataSetHandle::new(*s), DataKeyHandle::new(*h), true)? },
+                    Some(Item::D(s, h)) => if direct.store.dataset(AnnotationDataSetHandle::new(*s)).and_then(|ds| ds.annotationdata(AnnotationDataHandle::new(*h))).is_some() { direct.store.remove_data(AnnotationDataSetHandle::new(*s), AnnotationDataHandle::new(*h), true)? },
                     _ => {}
                 } }
                 Ok(())
@@ -621,6 +622,44 @@ pub fn check_mut(rep: &mut Report, script: &[String], rng: &mut Rng) {
             })) { Ok(Ok(())) => Ok(()), Ok(Err(e)) => Err(format!("{}", e)), Err(p) => Err(format!("PANIC {}", p)) };
             compare_mut(rep, "add", sel.rtype, &ctx(&text), r1.map(|_| ()), r2, &via_query.store, &direct.store);
         }
+    }
+    // the same data item / key / resource / dataset in several result rows (reached through two annotations), and a DELETE
+    // query without a sub-query
+    for rtype in ["DATA", "KEY", "RESOURCE", "DATASET"] {
+        let (mut via_query, mut direct) = (Exec::new(), Exec::new());
+        for l in script { via_query.exec(l); direct.exec(l); }
+        let inner = match rtype { "DATA" => "SELECT DATA ?x WHERE ANNOTATION ?a", "KEY" => "SELECT KEY ?x WHERE ANNOTATION ?a", "RESOURCE" => "SELECT RESOURCE ?x WHERE ANNOTATION ?a", _ => "SELECT DATASET ?x WHERE ANNOTATION ?a" };
+        let seltext = format!("SELECT ANNOTATION ?a {{ {}; }}", inner);
+        let rows: Vec<Item> = match guarded(std::panic::AssertUnwindSafe(|| -> Result<Vec<Item>, String> { let q = Query::try_from(seltext.as_str()).map_err(|e| format!("{}", e))?; Ok(collect_rows(&direct.store, q)?.iter().filter_map(|r| r.iter().nth(1).map(item_of)).collect()) })) { Ok(Ok(r)) => r, _ => continue };
+        if rows.is_empty() { continue; }
+        let dup = { let mut seen: Vec<String> = vec![]; let mut d = false; for r in &rows { let k = format!("{:?}", r); if seen.contains(&k) { d = true; } seen.push(k); } d };
+        rep.count(&format!("query2:delete-through-annotations:{}:{}", rtype, if dup { "item-in-several-rows" } else { "distinct-rows" }));
+        rep.case(Some(&format!("{}|DELETE {} through annotations", script.join("|"), rtype)));
+        let r1: Result<usize, String> = match guarded(std::panic::AssertUnwindSafe(|| -> Result<usize, String> {
+            let sub = Query::try_from(seltext.as_str()).map_err(|e| format!("{}", e))?;
+            let query = Query::new(QueryType::Delete, Some(rtype_of(rtype)), Some("x")).with_subquery(sub);
+            let _ = stam::verif_hooks::verif_take_query_error();
+            let it = via_query.store.query_mut(query).map_err(|e| format!("{}", e))?;
+            let n = it.count();
+            match stam::verif_hooks::verif_take_query_error() { Some(e) => Err(e), None => Ok(n) }
+        })) { Ok(r) => r, Err(m) => Err(format!("PANIC {} @{}", m.chars().take(80).collect::<String>(), last_panic_loc())) };
+        let r2: Result<(), String> = match guarded(std::panic::AssertUnwindSafe(|| -> Result<(), StamError> {
+            for it in &rows { match it {
+                Item::R(h) => if direct.store.resource(TextResourceHandle::new(*h)).is_some() { direct.store.remove(TextResourceHandle::new(*h))? },
+                Item::S(h) => if direct.store.dataset(AnnotationDataSetHandle::new(*h)).is_some() { direct.store.remove(AnnotationDataSetHandle::new(*h))? },
+                Item::K(s, h) => if direct.store.dataset(AnnotationDataSetHandle::new(*s)).and_then(|ds| ds.key(DataKeyHandle::new(*h))).is_some() { direct.store.remove_key(AnnotationDataSetHandle::new(*s), DataKeyHandle::new(*h), true)? },
+                Item::D(s, h) => if direct.store.dataset(AnnotationDataSetHandle::new(*s)).and_then(|ds| ds.annotationdata(AnnotationDataHandle::new(*h))).is_some() { direct.store.remove_data(AnnotationDataSetHandle::new(*s), AnnotationDataHandle::new(*h), true)? },
+                _ => {}
+            } }
+            Ok(())
+        })) { Ok(Ok(())) => Ok(()), Ok(Err(e)) => Err(format!("{}", e)), Err(p) => Err(format!("PANIC {}", p)) };
+        compare_mut(rep, "delete", &format!("{}-through-annotations", rtype), &ctx(&format!("DELETE {} ?x {{ {} }}", rtype, seltext)), r1.map(|_| ()), r2, &via_query.store, &direct.store);
+    }
+    for text in ["DELETE ANNOTATION ?a", "DELETE ANNOTATION ?a { }", "ADD ANNOTATION ?a WITH DATA \"s\" \"k\" \"v\";"] {
+        let mut ex = Exec::new();
+        for l in script { ex.exec(l); }
+        rep.count("query2:mutation-without-subquery");
+        if let Err(m) = run_mut(&mut ex.store, text) { if m.starts_with("PANIC") { rep.fail("panic", "C08/mutation-without-subquery-panics", ctx(text), "an error or nothing done", &m); } }
     }
     // every annotation deleted by one query: annotations on annotations are among the results next to their targets, so
     // removing an earlier result takes later results along
